@@ -13,7 +13,7 @@ Definition pwf_step (s : sys) (o : op) : Prop :=
       forall l e, nth_error (s_logs s) r = Some l -> append_entry l payload pc h = Some e ->
                   forall a, In a (s_univ s) -> e_hash a = h -> a = e
   | ONew _ _ _ _ t0 => 0 <= t0
-  | OOpen _ _ _ _ _ _ => False   (* histories with re-opened logs: POpen.v ([owf], [osinv]) *)
+  | OOpen _ _ _ _ _ _ _ => False   (* histories with re-opened logs: POpen.v ([owf], [osinv]) *)
   | _ => True
   end.
 
@@ -41,7 +41,7 @@ Proof. split; [split; intros a b []|]. intros [|r] l H; discriminate. Qed.
 
 Theorem psinv_step s o : psinv s -> pwf_step s o -> psinv (fst (step s o)).
 Proof.
-  intros [UO IL] W. destruct o as [id key sf deny t0|r payload pc h|r src size|r key|r mh|r io|r payload pc h|r|osrc okeep oid okey osf odeny]; cbn [step].
+  intros [UO IL] W. destruct o as [id key sf deny t0|r payload pc h|r src size|r key|r mh|r io|r payload pc h|r|osrc okeep ohh oid okey osf odeny]; cbn [step].
   - (* ONew *)
     split; [exact UO|]. cbn [fst s_logs s_univ]. intros r l H.
     destruct (Nat.lt_ge_cases r (length (s_logs s))) as [Hl|Hl].
